@@ -237,7 +237,8 @@ try:
     operand_ok = ("let register_operand = register().map(Operand::Register); let immediate = integer().map(Operand::Integer); let memory = between(char('['), char(']'), (register(), optional(integer()))) "
                   ".map(|t| Operand::Memory(t.0, t.1.unwrap_or(0))); register_operand.or(immediate).or(memory)") in ptxt
     instr_ok = "let operands = sep_by(operand(), char(',').skip(spaces())); (ident().skip(spaces()), operands, spaces()).map(|t| Instruction { name: t.0, operands: t.1, })" in ptxt
-    parse_ok = "let mut with = spaces().with(many(instruction()).skip(eof()));" in ptxt and "use combine::parser::char::{alpha_num, char, digit, hex_digit, letter, spaces, string};" in ptxt
+    parse_ok = ('pub fn parse(input: &str) -> Result<Vec<Instruction>, String> { let mut with = spaces().with(many(instruction()).skip(eof())); #[cfg(feature = "std")] { match with.easy_parse(position::Stream::new(input)) { '
+                'Ok((insts, _)) => Ok(insts), Err(err) => Err(err.to_string()), } } #[cfg(not(feature = "std"))] { match with.parse(position::Stream::new(input)) { Ok((insts, _)) => Ok(insts), Err(err) => Err(err.to_string()), } } }') in ptxt and "use combine::parser::char::{alpha_num, char, digit, hex_digit, letter, spaces, string};" in ptxt
     lines += ["/-- the combinator structure of the parser (`ident` = `many1(alpha_num())`; `operand` = register, else integer, else `[register integer?]`; `instruction` = mnemonic, blanks, operands",
               "    separated by a comma and blanks, blanks; `parse` = blanks, instructions, end of input; `spaces` is combine's own, i.e. every `char::is_whitespace`) has the modelled shape -/",
               "def parserStructureShape : Bool := %s" % ("true" if ident_ok and operand_ok and instr_ok and parse_ok else "false")]
